@@ -832,3 +832,7 @@ Theorem C17_pull_returns_after_failed_send_race : forall V reduce veqb ms fail_a
       (retZ V st, match p_ret st with Some (_, e) => e | None => 0 end).
 Proof. exact pull_ret_after_failed_send_race. Qed.
 Print Assumptions C17_pull_returns_after_failed_send_race.
+
+(* Print Assumptions for every theorem above that did not have its own line yet *)
+Print Assumptions C17_never_panics_v0_refuted.
+Print Assumptions C17_goroutines_end_v0_refuted.
